@@ -276,6 +276,42 @@ func c05splices(r *mon.Rand, t *gen.Tree) []c05splice {
 		m.Kids = append(m.Kids, refNInt(2), refNArr(refNInt(4)))
 		return true
 	})
+	add("crit-names-0-while-only-empty-text-label-present", func(t *gen.Tree, p, m, u *Node) bool {
+		strip(m, 2, 0)
+		m.Kids = append(m.Kids, refNInt(2), refNArr(refNInt(0)), refNTstr(""), refNInt(1))
+		return true
+	})
+	add("crit-names-empty-text-while-only-0-present", func(t *gen.Tree, p, m, u *Node) bool {
+		strip(m, 2, 0)
+		m.Kids = append(m.Kids, refNInt(2), refNArr(refNTstr("")), refNInt(0), refNInt(1))
+		return true
+	})
+	// a later signer of a COSE_Sign whose protected bytes are those of an earlier one, with the IV pair
+	// split across ITS two buckets
+	for _, which := range []int{0, 1, 2} {
+		which := which
+		add(fmt.Sprintf("later-signer-same-protected-iv-pair-split/%d", which), func(t *gen.Tree, p, m, u *Node) bool {
+			n := t.Root
+			if n.Major == 6 {
+				n = n.Kids[0]
+			}
+			if len(n.Kids) != 4 || n.Kids[3].Major != 4 || len(n.Kids[3].Kids) == 0 {
+				return false
+			}
+			inProt, inUnprot := int64(5), int64(6)
+			if which == 1 {
+				inProt, inUnprot = 6, 5
+			}
+			pb := encodeNode(refNMap(refNInt(1), refNInt(-7), refNInt(inProt), refNBstr([]byte{1})))
+			entry := func(un *Node) *Node { return refNArr(refNBstr(pb), un, refNBstr([]byte("signature"))) }
+			sigs := []*Node{entry(refNMap()), entry(refNMap(refNInt(inUnprot), refNBstr([]byte{2})))}
+			if which == 2 {
+				sigs = []*Node{entry(refNMap(refNInt(4), refNBstr([]byte("a")))), entry(refNMap()), entry(refNMap(refNInt(inUnprot), refNBstr([]byte{2})))}
+			}
+			n.Kids[3].Kids = sigs
+			return true
+		})
+	}
 	add("crit-empty", func(t *gen.Tree, p, m, u *Node) bool {
 		strip(m, 2)
 		m.Kids = append(m.Kids, refNInt(2), refNArr())
